@@ -41,6 +41,9 @@ TraceNeg    == /\ E.ev = "neg" /\ NegObj(E.id)
 TraceMoveKeep == /\ E.ev = "movekeep" /\ MoveKeep(E.id, E.v)
                  /\ IF ~Agrees(E.post, heap'[E.id]) THEN Fail("C07.receiver")
                     ELSE IF ~Agrees(E.ret, heap'[Len(heap')]) THEN Fail("C07.return_value") ELSE UNCHANGED bad
+\* a call that must not raise did (move, -polygon, deepcopy on valid objects): the driver ends the session at this event
+TraceRaised == /\ E.ev = "raised" /\ UNCHANGED <<heap, orig, disp, args, ncopy, hist>>
+               /\ Fail(IF E.what = "move" THEN "C07.move_raises" ELSE IF E.what = "neg" THEN "C09.neg_raises" ELSE "C20.copy_raises")
 \* a pure query: the specification's state does not change; the logged answer is compared with the exact one
 TraceQuery  == /\ E.ev = "query" /\ UNCHANGED <<heap, orig, disp, args, ncopy>> /\ Step([act |-> "Query", op |-> E.op, i |-> E.i, j |-> E.j])
                /\ LET a == heap[E.i]  b == heap[E.j]
@@ -54,7 +57,7 @@ TraceQuery  == /\ E.ev = "query" /\ UNCHANGED <<heap, orig, disp, args, ncopy>> 
 \* at the end of a session every object is observed again: nothing but Move may have changed it (purity, ownership, deep-copy independence)
 TraceSnap   == /\ E.ev = "snap" /\ UNCHANGED <<heap, orig, disp, args, ncopy, hist>>
                /\ IF Agrees(E.obj, heap[E.id]) THEN UNCHANGED bad ELSE Fail("C20.state")
-TraceNext == tid <= Len(Traces) /\ (TraceReset \/ TraceCreate \/ TraceCopy \/ TraceMove \/ TraceNeg \/ TraceMoveKeep \/ TraceQuery \/ TraceSnap) /\ Advance
+TraceNext == tid <= Len(Traces) /\ (TraceReset \/ TraceCreate \/ TraceCopy \/ TraceMove \/ TraceNeg \/ TraceMoveKeep \/ TraceRaised \/ TraceQuery \/ TraceSnap) /\ Advance
 TraceInit == tid = 1 /\ l = 1 /\ bad = <<>> /\ heap = <<>> /\ orig = <<>> /\ disp = <<>> /\ args = <<>> /\ ncopy = <<>> /\ hist = <<>>
 TraceSpec == TraceInit /\ [][TraceNext]_tvars
 NEvents == SE!FoldLeft(LAMBDA acc, s : acc + Len(s), 0, Traces)        \* (iterative: a recursive sum overflows the Java stack on thousands of sessions)
